@@ -12,6 +12,9 @@ class VerifError(Exception):
     pass
 
 
+ELEMENT = "filippo.io/edwards25519/field.Element"
+
+
 class Ptr:
     __slots__ = ("obj", "path")
 
@@ -120,6 +123,9 @@ class State:
         self.localobj = {}    # alloc reg name -> obj id
         self.localname = {}   # source var name -> obj id (latest)
         self.dead = False
+        self.elem_atoms = {}  # ring atom -> None
+        self.pending = {}     # ring atom havocked by the call being applied -> cell key
+        self.call_mark = 0
 
     def fork(self):
         s = State(self.run)
@@ -133,6 +139,9 @@ class State:
         s.loopstack = [dict(l) for l in self.loopstack]
         s.localobj = dict(self.localobj)
         s.localname = dict(self.localname)
+        s.elem_atoms = dict(self.elem_atoms)
+        s.pending = dict(self.pending)
+        s.call_mark = self.call_mark
         return s
 
     def oblige(self, kind, site, goal, descr=""):
@@ -142,9 +151,54 @@ class State:
         if f is True:
             return
         for g in conjuncts(f):
+            if isinstance(g, tuple) and g and g[0] == "req" and self.pending and self.define_ring(g[1]):
+                continue
             self.hyps.append(g)
             self.run.note_bound(self, g)
             self.propagate_equality(g)
+
+    def truth(self, f):
+        """True / False if the formula (or its negation) is literally among the path's hypotheses, else None"""
+        if f is True or f is False:
+            return f
+        hs = set()
+        for h in self.hyps:
+            try:
+                hs.add(h)
+            except TypeError:
+                pass
+        cs = conjuncts(f)
+        try:
+            if all(c in hs for c in cs):
+                return True
+            if len(cs) == 1 and mk_not(f) in hs:
+                return False
+        except TypeError:
+            return None
+        return None
+
+    def define_ring(self, p):
+        """p == 0 where p = +-a + rest and a is an element atom havocked by the call being applied and not
+        occurring in rest: the cell simply gets the value -+rest (no hypothesis is needed)"""
+        from .ring import RVal, RPoly
+        for a, key in list(self.pending.items()):
+            m = ((a, 1),)
+            c = p.t.get(m)
+            if c not in (1, -1):
+                continue
+            rest = RPoly({k: v for k, v in p.t.items() if k != m})
+            if a in rest.atoms():
+                continue
+            val = -rest if c == 1 else rest
+            old = self.mem.get(key)
+            if not isinstance(old, RVal) or old.poly != RPoly.atom(a):
+                continue
+            if any(a in ring_atoms_of(h) for h in self.hyps[self.call_mark:]):
+                continue
+            self.mem[key] = RVal(val, old.inv, old.raw)
+            del self.pending[a]
+            return True
+        return False
 
     def propagate_equality(self, g):
         """an assumed `variable == constant` is substituted into the registers and memory, so that
@@ -180,6 +234,12 @@ class State:
             self.regs[k] = fix(self.regs[k])
         for k in list(self.mem):
             self.mem[k] = fix(self.mem[k])
+        for k in list(self.cache):
+            v = self.cache[k]
+            if isinstance(v, tuple):
+                self.cache[k] = tuple(fix(x) for x in v)
+            else:
+                self.cache[k] = fix(v)
 
 
 class FuncRun:
@@ -197,6 +257,10 @@ class FuncRun:
             self.dom = LiaDomain()
         elif self.mode == "bv":
             self.dom = BvDomain(int(contract.opts.get("specw", 520)))
+        elif self.mode == "ring":
+            from .ring import RingDomain
+            self.dom = RingDomain()
+            self.prog = V.prog.view({ELEMENT})
         else:
             raise VerifError("mode %s not handled by symex" % self.mode)
         self.obligations = []
@@ -237,6 +301,9 @@ class FuncRun:
         if prog.is_bool(t):
             return False
         k = prog.kind(t)
+        if k == "opaque":
+            from .ring import RVal, RPoly
+            return RVal(RPoly.const(0), 2, "ZERO")
         if k == "ptr":
             return NIL
         if k == "slice":
@@ -266,6 +333,12 @@ class FuncRun:
             st.decl[n] = "Bool"
             return ("bvar", n)
         k = prog.kind(t)
+        if k == "opaque":
+            from .ring import RVal, RPoly
+            a = self.dom.new_name(name).replace("!", "_").replace(".", "_").replace("[", "_").replace("]", "").replace("^", "p").replace("'", "n").replace("#", "_")
+            rv = RVal(RPoly.atom(a), 0)
+            st.elem_atoms[a] = None
+            return rv
         if k == "struct":
             return Comp("struct", [self.fresh_value(st, f["type"], name + "." + f["name"]) for f in prog.fields(t)])
         if k == "array":
@@ -490,7 +563,7 @@ class FuncRun:
 
     def note_bound(self, st, g):
         """harvest atom <= const style facts into the interval table (lia only)"""
-        if self.mode != "lia" or not isinstance(g, tuple):
+        if self.mode not in ("lia", "ring") or not isinstance(g, tuple):
             return
         if g[0] in ("<=", "<") and isinstance(g[1], Poly) and isinstance(g[2], Poly):
             a, b = g[1], g[2]
@@ -557,15 +630,25 @@ class FuncRun:
         self.pre_objs = set(self.objs)
         self.old_mem = dict(st.mem)
         self.entry_state = st.fork()
-        ev = Evaluator(self, st, self.old_mem, self.contract_env(), phase="pre")
+        ev = Evaluator(self, st, self.old_mem, self.contract_env(), phase="pre", assume=True)
         for lab, ast, txt in self.V.globalinv_for(self):
             st.assume(ev.bool(ast))
         for lab, ast, txt in self.c.requires:
             st.assume(ev.bool(ast))
+        for kind, txt in self.c.other:
+            if kind == "assume":
+                from .cparse import parse_expr, split_label
+                lab, e = split_label(txt)
+                st.assume(ev.bool(parse_expr(e)))
+                self.V.assumed.add((self.fname, lab or "", e))
         self.old_mem = dict(st.mem)   # requires may have created lazy cells
         self.entry_hyps = list(st.hyps)
         # vacuity cover of the precondition
         self.add_named(st, "cover", "cover.requires", "", "COVER", "precondition is satisfiable")
+        if self.f.get("lemma"):
+            self.at_return(st, [], {"pos": "lemma"})
+            self.paths += 1
+            return self.obligations
         if self.asm_body is not None:
             from .asm import AsmExec
             try:
@@ -576,6 +659,7 @@ class FuncRun:
             self.paths += 1
             return self.obligations
         work = [st]
+        self.work = work
         while work:
             s = work.pop()
             try:
@@ -683,7 +767,8 @@ class FuncRun:
                 lt = self.loc_type(o, p)
                 st.mem[(o, p)] = self.fresh_value(st, lt, "%s%s'" % (self.objs[o].name, self.prog.path_name(self.objs[o].ty, p) if not self.objs[o].lazy else str(list(p))))
         env = self.loop_env(st, k)
-        ev = Evaluator(self, st, self.old_mem, env, phase="inv")
+        ev = Evaluator(self, st, self.old_mem, env, phase="inv", assume=True)
+        ev.havocked = set(allowed)
         for lab, ast, txt in L["invariant"]:
             st.assume(ev.bool(ast))
         dec = ev.int(L["decreases"]) if L["decreases"] is not None else None
@@ -706,9 +791,18 @@ class FuncRun:
             env["result%d" % i] = wrap_typed(self.prog, r, rts[i])
         ev = Evaluator(self, st, self.old_mem, env, phase="post", assigned=self.assigned_names())
         rn = self.returns
+        # instances of proved lemmas requested by the contract (`use name(args)`)
+        for kind, txt in self.c.other:
+            if kind == "use":
+                st.assume(self.lemma_instance(ev, txt))
         for i, (lab, ast, txt) in enumerate(self.c.ensures):
             g = ev.bool(ast)
             self.add_named(st, "post", "post.%s" % (lab or str(i + 1)), ins.get("pos", ""), g, txt)
+            if self.mode == "ring" and g is not True:
+                # each postcondition is proved on its own; later ones may rely on the earlier ones
+                st = st.fork()
+                st.hyps.append(g)
+                ev.st = st
         # frame
         allowed = self.assign_cells(ev)
         bad = []
@@ -732,6 +826,32 @@ class FuncRun:
         else:
             self.add_named(st, "frame", "frame", ins.get("pos", ""), True, "every location outside `assigns` is syntactically unchanged")
         self.add_named(st, "cover", "cover.return", ins.get("pos", ""), "COVER", "this return is reachable")
+
+    def lemma_instance(self, ev, txt):
+        import re as _re
+        from .cparse import parse_expr
+        m = _re.match(r"^([A-Za-z_0-9]+)\s*\((.*)\)$", txt.strip())
+        if not m or m.group(1) not in self.V.contracts.lemmas:
+            raise VerifError("unknown lemma in `use %s`" % txt)
+        L = self.V.contracts.lemmas[m.group(1)]
+        from .cparse import split_top
+        args = [parse_expr(a) for a in split_top(m.group(2))]
+        if len(args) != len(L["params"]):
+            raise VerifError("arity of lemma %s" % m.group(1))
+        saved = {}
+        for (pn, _), a in zip(L["params"], args):
+            saved[pn] = ev.bound.get(pn)
+            ev.bound[pn] = ev.ev(a, False)
+        try:
+            f = ev.bool(L["ast"])
+        finally:
+            for pn, v in saved.items():
+                if v is None:
+                    ev.bound.pop(pn, None)
+                else:
+                    ev.bound[pn] = v
+        self.V.lemmas_used.add(m.group(1))
+        return f
 
     def assigned_names(self):
         names = set()
@@ -995,6 +1115,8 @@ class FuncRun:
             return self.int_cmp("==", x, y, ii[1])
         if prog.is_bool(t):
             return mk_iff(x, y)
+        if k == "opaque":
+            return self.limbs_equal(st, x, y)
         if k == "ptr":
             return x == y
         if k == "interface":
@@ -1005,6 +1127,19 @@ class FuncRun:
         if k == "func":
             return True
         raise Unsupported("== on %s" % t)
+
+    def limbs_equal(self, st, x, y):
+        """limb-wise equality of two Element values (ring mode): an uninterpreted boolean per pair of
+        limb-vector identities; equal limbs imply equal field values"""
+        from .ring import req
+        if x.raw == y.raw:
+            return True
+        a, b = sorted([x.raw, y.raw])
+        n = "leq!%s!%s" % (a, b)
+        if n not in st.decl:
+            st.decl[n] = "Bool"
+            st.hyps.append(mk_implies(("bvar", n), req(x.poly - y.poly)))
+        return ("bvar", n)
 
     def index_addr(self, st, ins):
         prog = self.prog
@@ -1089,6 +1224,18 @@ class FuncRun:
 
 class PathEnd(Exception):
     pass
+
+
+def ring_atoms_of(f):
+    if isinstance(f, tuple) and f:
+        if f[0] == "req":
+            return f[1].atoms()
+        s = set()
+        for g in f[1:]:
+            if isinstance(g, tuple):
+                s |= ring_atoms_of(g)
+        return s
+    return set()
 
 
 def set_partitions(items):
